@@ -36,7 +36,7 @@
 //! ```
 use ironplc_dsl::{
     common::*,
-    core::{FileId, Id, SourceSpan},
+    core::{FileId, Id, Located, SourceSpan},
     diagnostic::{Diagnostic, Label},
     visitor::Visitor,
 };
@@ -66,16 +66,18 @@ pub fn apply(lib: Library) -> Result<Library, Vec<Diagnostic>> {
             LibraryElementKind::DataTypeDeclaration(decl) => {
                 match decl {
                     DataTypeDeclarationKind::Enumeration(decl) => {
-                        types_by_name.insert(
+                        insert_unique(
+                            &mut types_by_name,
                             decl.type_name.name.clone(),
                             DataTypeDeclarationKind::Enumeration(decl),
-                        );
+                        )?;
                     }
                     DataTypeDeclarationKind::Subrange(decl) => {
-                        types_by_name.insert(
+                        insert_unique(
+                            &mut types_by_name,
                             decl.type_name.name.clone(),
                             DataTypeDeclarationKind::Subrange(decl),
-                        );
+                        )?;
                     }
                     DataTypeDeclarationKind::Simple(decl) => {
                         // Can refer to other declarations, but does not have any declarations itself
@@ -84,22 +86,25 @@ pub fn apply(lib: Library) -> Result<Library, Vec<Diagnostic>> {
                         ));
                     }
                     DataTypeDeclarationKind::Array(decl) => {
-                        types_by_name.insert(
+                        insert_unique(
+                            &mut types_by_name,
                             decl.type_name.name.clone(),
                             DataTypeDeclarationKind::Array(decl),
-                        );
+                        )?;
                     }
                     DataTypeDeclarationKind::Structure(decl) => {
-                        types_by_name.insert(
+                        insert_unique(
+                            &mut types_by_name,
                             decl.type_name.name.clone(),
                             DataTypeDeclarationKind::Structure(decl),
-                        );
+                        )?;
                     }
                     DataTypeDeclarationKind::StructureInitialization(decl) => {
-                        types_by_name.insert(
+                        insert_unique(
+                            &mut types_by_name,
                             decl.type_name.name.clone(),
                             DataTypeDeclarationKind::StructureInitialization(decl),
-                        );
+                        )?;
                     }
                     DataTypeDeclarationKind::String(decl) => {
                         // Can refer to other declarations, but does not have any declarations itself
@@ -108,36 +113,41 @@ pub fn apply(lib: Library) -> Result<Library, Vec<Diagnostic>> {
                         ));
                     }
                     DataTypeDeclarationKind::LateBound(decl) => {
-                        types_by_name.insert(
+                        insert_unique(
+                            &mut types_by_name,
                             decl.data_type_name.name.clone(),
                             DataTypeDeclarationKind::LateBound(decl),
-                        );
+                        )?;
                     }
                 }
             }
             LibraryElementKind::FunctionDeclaration(decl) => {
-                elems_by_name.insert(
+                insert_unique(
+                    &mut elems_by_name,
                     decl.name.clone(),
                     LibraryElementKind::FunctionDeclaration(decl),
-                );
+                )?;
             }
             LibraryElementKind::FunctionBlockDeclaration(decl) => {
-                elems_by_name.insert(
+                insert_unique(
+                    &mut elems_by_name,
                     decl.name.clone(),
                     LibraryElementKind::FunctionBlockDeclaration(decl),
-                );
+                )?;
             }
             LibraryElementKind::ProgramDeclaration(decl) => {
-                elems_by_name.insert(
+                insert_unique(
+                    &mut elems_by_name,
                     decl.name.clone(),
                     LibraryElementKind::ProgramDeclaration(decl),
-                );
+                )?;
             }
             LibraryElementKind::ConfigurationDeclaration(decl) => {
-                elems_by_name.insert(
+                insert_unique(
+                    &mut elems_by_name,
                     decl.name.clone(),
                     LibraryElementKind::ConfigurationDeclaration(decl),
-                );
+                )?;
             }
         }
     }
@@ -153,6 +163,20 @@ pub fn apply(lib: Library) -> Result<Library, Vec<Diagnostic>> {
     elements.extend(sorted_ids.iter().filter_map(|id| elems_by_name.remove(id)));
 
     Ok(Library { elements })
+}
+
+/// Adds the declaration under its name. Two declarations having the same
+/// name are an error (rather than the second silently replacing the first).
+fn insert_unique<T>(map: &mut HashMap<Id, T>, name: Id, value: T) -> Result<(), Vec<Diagnostic>> {
+    if let Some((first, _)) = map.get_key_value(&name) {
+        return Err(vec![Diagnostic::problem(
+            Problem::DeclarationNameDuplicated,
+            Label::span(name.span(), "Duplicate declaration"),
+        )
+        .with_secondary(Label::span(first.span(), "First declaration"))]);
+    }
+    map.insert(name, value);
+    Ok(())
 }
 
 struct DeclarationsGraph {
